@@ -235,6 +235,65 @@ func Explore(c *fw.Ctx, mon Monitors) {
 	}
 }
 
+// Containment runs every COPY and MOVE between two resources of a fixed tree
+// that are the same, contain one another or are siblings with prefix-related
+// names, where the names look like dot segments without being any ("..trash",
+// "...", "..", ".hidden", "a" / "ab"): the relations a path-containment test
+// has to get right. Shared by C01 (model), C02 (refused => unchanged), C17.
+func Containment(c *fw.Ctx, mon Monitors) {
+	e, err := NewEnv(c, mon, "contain")
+	if err != nil {
+		c.Inconclusive(err.Error())
+		return
+	}
+	defer e.Close()
+	t := davtree.Tree{
+		"/box": {Dir: true}, "/box/..trash": {Dir: true}, "/box/..trash/item.txt": {Data: "item"}, "/box/..trash/deep": {Dir: true}, "/box/..trash/deep/x": {Data: "x"},
+		"/box/...": {Dir: true}, "/box/.../y": {Data: "y"}, "/box/..a": {Data: "file whose name starts with two dots"}, "/box/.hidden": {Dir: true}, "/box/.hidden/z": {Data: "z"},
+		"/box/a": {Dir: true}, "/box/a/f": {Data: "f"}, "/box/ab": {Dir: true}, "/box/ab/g": {Data: "g"}, "/box/a.txt": {Data: "t"}, "/box2": {Dir: true}, "/box2/h": {Data: "h"}, "/bo": {Data: "bo"},
+	}
+	var paths []string
+	for p := range t {
+		paths = append(paths, p)
+	}
+	sortStrings(paths)
+	related := func(a, b string) bool {
+		return a == b || strings.HasPrefix(a, b) || strings.HasPrefix(b, a)
+	}
+	idx := 0
+	for _, src := range paths {
+		for _, dst := range paths {
+			if !related(src, dst) {
+				continue
+			}
+			for _, m := range []string{"COPY", "MOVE"} {
+				for _, ow := range []string{"", "T", "F"} {
+					for _, form := range []string{"path", "slash", "dotseg"} {
+						idx++
+						if !c.Mine(idx) {
+							continue
+						}
+						r := davtree.Req{Method: m, Path: src, Dest: dst, DestForm: form, Overwrite: ow}
+						if m == "COPY" && idx%3 == 0 {
+							r.Depth = "0"
+						}
+						if form == "slash" && !t[dst].Dir {
+							continue
+						}
+						saved := e.Mon
+						if !modelApplies(t, r) {
+							e.Mon.Model = false
+						}
+						e.RunOne("containment", t, r)
+						e.Mon = saved
+						c.Observe("containment", m+" between related paths", 1)
+					}
+				}
+			}
+		}
+	}
+}
+
 // --- random histories -------------------------------------------------------
 
 var hostileNames = []string{
@@ -370,6 +429,19 @@ func Histories(c *fw.Ctx, mon Monitors, n, steps int) {
 		names := make([]string, 4)
 		for i := range names {
 			names[i] = hostileNames[r.Intn(len(hostileNames))]
+		}
+		if hi%3 == 1 {
+			// siblings one of whose names is a proper string prefix of the
+			// other (a / ab, report / report.bak): unrelated resources whose
+			// paths are nevertheless prefix-related as strings
+			sfx := []string{"2", "b", ".bak", "-old", " x", "%", ".", "~"}
+			for _, k := range []int{0, 2} {
+				for len(names[k]) > 100 {
+					// keep the derived name well below NAME_MAX
+					names[k] = hostileNames[r.Intn(len(hostileNames))]
+				}
+				names[k+1] = names[k] + sfx[r.Intn(len(sfx))]
+			}
 		}
 		t := davtree.Tree{}
 		if err := e.Materialise(t); err != nil {
